@@ -20,7 +20,7 @@ RULE = ("plan = sequence of 0..8 items (0..20 thorough) in one of four classes â
         "NA positions, tolist, rebuild-from-tolist, equal as an equivalence relation on (v, exact dtype variant, one-cell "
         "change), na_dtype/na_value, drop_na, replace_na. Non-trivial: length â‰¥ 2 and (a missing value, or a NumPy scalar, or "
         "an explicit dtype). Distinct = plan hash.")
-CASES = {"quick": 3000, "thorough": 12000}
+CASES = {"quick": 3000, "thorough": 24000}
 FUZZ_RUNS = {"thorough": 30000}     # coverage-guided leg, 8 processes (vlib/fuzz.py)
 
 D, DT = datetime.date, datetime.datetime
